@@ -20,8 +20,15 @@ impl RedoPathBuf {
     #[verifier::external_body]
     pub fn clone(&self) -> (r: RedoPathBuf) ensures r@ == self@ { unimplemented!() }
 }
+pub uninterp spec fn path_join(a: Seq<char>, b: Seq<char>) -> Seq<char>;
 impl PathBuf {
     pub uninterp spec fn view(&self) -> Seq<char>;
+    /// TRUSTED (std::path::Path::join)
+    #[verifier::external_body]
+    pub fn join(&self, p: &RedoPathBuf) -> (r: PathBuf) ensures r@ == path_join(self@, p@) { unimplemented!() }
+    /// TRUSTED (std::path::Path::exists): does the path exist right now
+    #[verifier::external_body]
+    pub fn exists(&self) -> (r: bool) ensures r == path_exists(self@) { unimplemented!() }
 }
 
 #[verifier::external_body]
@@ -40,6 +47,10 @@ impl RedoError {
     pub fn immediate_exit<S: Msg>(code: i32, msg: S) -> (r: RedoError) ensures r.kind() == RedoErrorKind::ImmediateExit(code) { unimplemented!() }
     #[verifier::external_body]
     pub fn from_kind(k: RedoErrorKind) -> (r: RedoError) ensures r.kind() == k { unimplemented!() }
+}
+impl From<RedoErrorKind> for RedoError {
+    #[verifier::external_body]
+    fn from(k: RedoErrorKind) -> (r: RedoError) ensures r.kind() == k { unimplemented!() }
 }
 #[verifier::external_body]
 pub fn fmt_stub__() -> String { unimplemented!() }
